@@ -6,6 +6,7 @@ import (
 	"math"
 	"regexp"
 	"strings"
+	"sync/atomic"
 
 	"github.com/peterstace/simplefeatures/geom"
 	"verif/engine"
@@ -635,6 +636,107 @@ func c03Multi(r *engine.Run) {
 	r.Sample("wkt", wktCase{WKT: "MULTIPOLYGON(((0 0,1 0,0 1,0 0)),((1 0,1 1,0 1,1 0)))", Note: "multipolygon pair"})
 }
 
+// c03MultiMany: MultiPolygons of 3..k members drawn from a pool with every kind of pairwise
+// relation (nested in a hole, touching at points, sharing an edge, overlapping, containing),
+// under every member order. The oracle verdict is computed once per subset (it cannot depend on
+// the order); the library must give it for every permutation.
+func c03MultiMany(r *engine.Run) {
+	id := universe.Identity
+	sq := func(x0, y0, x1, y1 int) []universe.LPt {
+		return []universe.LPt{{X: x0, Y: y0}, {X: x1, Y: y0}, {X: x1, Y: y1}, {X: x0, Y: y1}, {X: x0, Y: y0}}
+	}
+	ring := func(c ...int) []universe.LPt {
+		var out []universe.LPt
+		for i := 0; i+1 < len(c); i += 2 {
+			out = append(out, universe.LPt{X: c[i], Y: c[i+1]})
+		}
+		return append(out, out[0])
+	}
+	pool := []geom.Polygon{
+		id.Polygon(sq(0, 0, 8, 8), sq(2, 2, 6, 6)),         // A: frame
+		id.Polygon(ring(4, 2, 6, 4, 4, 6, 2, 4)),           // B: diamond in A's hole touching it at 4 points
+		id.Polygon(sq(3, 3, 5, 5)),                         // C: inside the hole; corners on B's edges, inside B
+		id.Polygon(sq(8, 0, 12, 4)),                        // D: shares part of an edge with A
+		id.Polygon(sq(8, 8, 10, 10)),                       // E: touches A at a corner
+		id.Polygon(ring(8, 4, 12, 4, 10, 8)),               // F: shares an edge with D, touches A at a point on A's edge
+		id.Polygon(sq(0, 0, 1, 1)),                         // G: inside A's body
+		id.Polygon(sq(20, 20, 22, 22)),                     // H: far away, inside O's hole
+		id.Polygon(sq(7, 7, 9, 9)),                         // J: overlaps A and E
+		id.Polygon(sq(12, 0, 14, 2)),                       // L: shares an edge with D
+		id.Polygon(ring(12, 4, 14, 4, 13, 6)),              // M: touches D and F at one corner
+		id.Polygon(sq(18, 18, 24, 24), sq(19, 19, 23, 23)), // O: frame around H
+		id.Polygon(ring(10, 8, 12, 10, 10, 12)),            // P: touches F's apex and E's corner (10,8)? (E corner is (10,8))
+	}
+	maxK := 4
+	if r.Thorough() {
+		maxK = 6
+	}
+	type job struct{ idx []int }
+	var jobs []job
+	var rec func(start int, cur []int)
+	rec = func(start int, cur []int) {
+		if len(cur) >= 3 {
+			jobs = append(jobs, job{append([]int(nil), cur...)})
+		}
+		if len(cur) == maxK {
+			return
+		}
+		for i := start; i < len(pool); i++ {
+			rec(i+1, append(cur, i))
+		}
+	}
+	rec(0, nil)
+	var perms, validSubsets atomic.Int64
+	done := r.Parallel(len(jobs), func(k int) {
+		idx := jobs[k].idx
+		ms := make([]geom.Polygon, len(idx))
+		for i, v := range idx {
+			ms[i] = pool[v]
+		}
+		g := geom.NewMultiPolygon(ms).AsGeometry()
+		r.States.Add(1)
+		want, why := c03Compare(r, g, "wkt", "multipolygon subset of the relation pool")
+		if want {
+			validSubsets.Add(1)
+			r.Nontrivial("mpN " + g.AsText())
+		}
+		// every permutation (Heap's algorithm)
+		n := len(ms)
+		c := make([]int, n)
+		cur := append([]geom.Polygon(nil), ms...)
+		check := func() {
+			perms.Add(1)
+			r.Transitions.Add(1)
+			v := geom.NewMultiPolygon(cur).AsGeometry()
+			if ok, msg, pnc := libValid(v); pnc != nil || ok != want {
+				key := "C03/multipolygon.memberOrderChangesVerdict.accepts-invalid"
+				if want {
+					key = "C03/multipolygon.memberOrderChangesVerdict.rejects-valid"
+				}
+				r.Violation(key, "wkt", wktCase{v.AsText(), "permutation of " + g.AsText()}, fmt.Sprint(msg, pnc, " oracle: ", why))
+			}
+		}
+		for i := 0; i < n; {
+			if c[i] < i {
+				if i%2 == 0 {
+					cur[0], cur[i] = cur[i], cur[0]
+				} else {
+					cur[c[i]], cur[i] = cur[i], cur[c[i]]
+				}
+				check()
+				c[i]++
+				i = 0
+			} else {
+				c[i] = 0
+				i++
+			}
+		}
+	})
+	if done {
+		r.Bound(fmt.Sprintf("MultiPolygons of 3..%d members: every subset of a %d-polygon relation pool × every member order (%d subsets, %d valid, %d permutations)", maxK, len(pool), len(jobs), validSubsets.Load(), perms.Load()))
+	}
+}
+
 func c03NonFinite(r *engine.Run) {
 	shapes := universe.Shapes(1, 2)
 	bads := []float64{math.NaN(), math.Inf(1), math.Inf(-1)}
@@ -718,6 +820,7 @@ func c03Main(r *engine.Run) {
 	c03Holes(r)
 	c03ManyHoles(r)
 	c03Multi(r)
+	c03MultiMany(r)
 	c03Rings(r)
 }
 
